@@ -31,6 +31,17 @@ def put(s, name, body):
         return s
     i, j = s.index(a) + len(a), s.index(b)
     return s[:i] + "\n" + body + "\n" + s[j:]
+cfg = json.load(open(os.path.join(V, "checks.json")))["checks"]
+prows = ["| id | package | deciding method (technique field of MANIFEST.json) | quick evaluations / distinct non-trivial (last committed evidence) |", "|---|---|---|---|"]
+for pid in sorted(cfg):
+    c = cfg[pid]
+    evp = os.path.join(V, "evidence", pid + ".json")
+    cov = ""
+    if os.path.exists(evp):
+        e = json.load(open(evp))
+        cov = "%s: %d / %d" % (e.get("tier", "?"), e["coverage"]["evaluations"], e["coverage"]["distinct_nontrivial"])
+    prows.append("| %s | props/%s%s | %s | %s |" % (pid, c["pkg"], " (-race)" if c.get("race") else "", c["technique"].replace("|", "\\|"), cov))
+s = put(s, "PERPROP", "\n".join(prows))
 s = put(s, "FINDINGS", findings)
 s = put(s, "SEEDS", seeds)
 open(os.path.join(V, "DESIGN.md"), "w").write(s)
